@@ -39,6 +39,8 @@ class Harness:
         self.file = file
         self.meta = meta
         self.property = fmeta["property"]
+        # a harness may also serve further properties: `//@ serves: C09 C11`
+        self.serves = [self.property] + meta.get("serves", "").split()
         self.crate = fmeta.get("crate", "types")
         self.mount = fmeta["mount"]
         self.modname = "verif_" + os.path.splitext(os.path.basename(file))[0]
@@ -109,7 +111,7 @@ def load_registry():
 
 
 def select(reg, prop, tier, seed, only):
-    hs = [h for h in reg if h.property == prop]
+    hs = [h for h in reg if prop in h.serves]
     if only:
         hs = [h for h in hs if any(o in h.name for o in only)]
         return hs
